@@ -15,6 +15,7 @@ import (
 	"sync/atomic"
 	"time"
 
+	"github.com/pingcap/failpoint"
 	"github.com/pingcap/kvproto/pkg/kvrpcpb"
 	"github.com/tikv/client-go/v2/kv"
 	"github.com/tikv/client-go/v2/tikv"
@@ -53,6 +54,9 @@ type Shape struct {
 	Splits      []string // region split keys
 	// Pre: keys that carry an old committed value before the victim runs
 	Pre []string
+	// Fallback: the store refuses async commit / 1PC for this transaction (max_commit_ts too small, as after a slow
+	// prewrite; produced with the repository's own failpoint invalidMaxCommitTS) and the commit falls back to 2PC
+	Fallback bool
 }
 
 func (s Shape) String() string {
@@ -70,6 +74,9 @@ func (s Shape) String() string {
 	var ms []string
 	for _, x := range s.Muts {
 		ms = append(ms, x.Kind.String()+":"+x.Key)
+	}
+	if s.Fallback {
+		m += "->fallback"
 	}
 	return fmt.Sprintf("%s/%s/%s muts=%v splits=%q pre=%q", s.Backend, m, p, ms, s.Splits, s.Pre)
 }
@@ -232,6 +239,10 @@ func (e *Env) RunVictim(commitReturned chan struct{}) *work.TxnRec {
 	e.cancelMu.Unlock()
 	defer cancel()
 	r := &work.Runner{U: e.U, C: e.Victim, LockWaitMS: 20, CommitCtx: ctx}
+	if e.Shape.Fallback {
+		_ = failpoint.Enable("tikvclient/invalidMaxCommitTS", "return")
+		defer failpoint.Disable("tikvclient/invalidMaxCommitTS")
+	}
 	rec := r.Run(1, e.Shape.Spec())
 	cancel()
 	if commitReturned != nil {
